@@ -43,8 +43,19 @@ pub fn pick_weight(rng: &mut Rng) -> f32 {
     }
 }
 
-/// Two different weights.
+/// Two different weights; one time in four they are adjacent floats (one ulp apart), so that
+/// "equal weight" means == and nothing looser.
 pub fn weight_pair(rng: &mut Rng) -> (f32, f32) {
+    if rng.chance(1, 4) {
+        let a = match rng.below(3) {
+            0 => f32::from_bits(0x3e80_0000 + rng.below(0x00ff_ffff) as u32), // [0.25, 1)
+            1 => corner(rng.usize_below(CORNER_WEIGHTS.len())),
+            _ => random_unit_bits(rng),
+        };
+        let bits = a.to_bits();
+        let b = if bits >= 0x3f80_0000 { f32::from_bits(bits - 1) } else { f32::from_bits(bits + 1) };
+        return if rng.chance(1, 2) { (a, b) } else { (b, a) };
+    }
     loop {
         let a = pick_weight(rng);
         let b = pick_weight(rng);
